@@ -290,6 +290,24 @@ def run(ctx):
                         mg = D.data_merge(lazy, cp)
                         ok = len(mg) == 2 * n
                         ctx.check("lazy == eager", ok, lambda: dict(desc(), lazy=lopts), mechanism="LazyCall merge/copy length")
+                    # replacing a leaf on a copy (data_replace, as Model.nll_grad_hessian and the plotting code do with the weights)
+                    # yields the new content in the copy and leaves the ORIGINAL lazy sample equal to the eager one
+                    w_old = np.linspace(0.5, 1.5, n)
+                    lazy["weight"] = w_old.copy()
+                    eager = dict(np_data, weight=w_old.copy(), extra_col=np.arange(n, dtype=float))
+                    w_new = np.full(n, 7.0)
+                    lz2 = D.data_replace(lazy, "weight", w_new)
+                    eg2 = D.data_replace(eager, "weight", w_new)
+                    cp2 = lazy.copy()
+                    cp2["extra_col"] = -np.arange(n, dtype=float)
+                    ev0 = {str(k): v for k, v in D.flatten_dict_data(D.data_to_numpy(lazy.eval())).items()}
+                    ev2 = {str(k): v for k, v in D.flatten_dict_data(D.data_to_numpy(lz2.eval())).items()}
+                    ok0 = np.array_equal(np.asarray(ev0["weight"]), eager["weight"]) and np.array_equal(np.asarray(ev0["extra_col"]), eager["extra_col"]) \
+                        and np.array_equal(np.asarray(D.data_to_numpy(lazy.get_weight()) if hasattr(lazy, "get_weight") else ev0["weight"]), w_old)
+                    ok2 = np.array_equal(np.asarray(ev2["weight"]), np.asarray(eg2["weight"])) and np.array_equal(np.asarray(eager["weight"]), w_old)
+                    ctx.check("lazy == eager", bool(ok0 and ok2), lambda: dict(desc(), lazy=lopts, original_weight=np.asarray(ev0["weight"])[:3], replaced_weight=np.asarray(ev2["weight"])[:3],
+                                                                              original_extra=np.asarray(ev0["extra_col"])[:3]),
+                              mechanism="LazyCall after data_replace / copy-then-set: original " + ("changed" if not ok0 else "ok") + ", copy " + ("wrong" if not ok2 else "ok"))
         except Exception as e:
             ctx.violation("momenta file round trip", ctx.exc_witness(e, **desc()), mechanism="file round trip raises")
         if i < 2:
